@@ -981,7 +981,15 @@ class FG:
             fw = fwd_targets(b)
             return labs[r.choice(fw)] if fw else lret
 
+        # position of the function's final `ret`: normally last; sometimes in the middle so that insns
+        # follow the (single) ret (inlining copies them in place when the callee has a non-top alloca)
+        rpos = r.randrange(1, nblocks) if nblocks >= 2 and r.random() < self.opts.get('p_ret_middle', 0.15) else nblocks
         for bi in range(nblocks):
+            if bi == rpos:
+                self.emit('jmp', labs[bi])
+                self.place(lret)
+                self.ret_insn()
+                self.p.features.add('ret:not-last')
             self.place(labs[bi])
             # fuel check: every block may be the target of a back edge
             self.emit('sub', R('fuel'), R('fuel'), Imm(1))
@@ -1021,8 +1029,11 @@ class FG:
                 self.place(lskip)
                 self.p.features.add('ret:multiple')
             # else: fall through
-        self.place(lret)
-        self.ret_insn()
+        if rpos == nblocks:
+            self.place(lret)
+            self.ret_insn()
+        else:
+            self.emit('jmp', lret)
         return f
 
 
